@@ -118,7 +118,7 @@ pub fn record(output: &str) {
         // (one cell in six is crowded: 18 to 21 environment objects)
         let nenv = if k % 3 == 2 { 0 } else if k % 6 == 4 { 18 + k % 4 } else { 2 + k % 4 };
         let mut case = make_case(&mut r, k, nenv, k % 5 == 4);
-        let checking = case.kws.body.safety.mode != CheckMode::NoCheck;
+        let mut checking = case.kws.body.safety.mode != CheckMode::NoCheck;
         let mut reconfigured = false;
         // rep 4 repeats the pose of rep 0 after the cell was re-configured through the public fields of the body
         let mut pose0: Option<(Joints, Joints)> = None;
@@ -136,6 +136,12 @@ pub fn record(output: &str) {
                     case.kws.body.collision_environment.push(CollisionBody { mesh: scene::local_mesh(&b, false, &pose), pose: pose.cast() });
                 } else {
                     case.kws.body.safety.to_environment = 0.25;
+                }
+                // (every third cell also has its check mode switched through the public field: checking switched on in a
+                //  cell that was built without, all collisions instead of the first one and the other way round)
+                if k % 3 == 1 {
+                    case.kws.body.safety.mode = match case.kws.body.safety.mode { CheckMode::NoCheck => CheckMode::AllCollsions, CheckMode::AllCollsions => CheckMode::FirstCollisionOnly, _ => CheckMode::AllCollsions };
+                    checking = true;
                 }
                 reconfigured = true;
             }
@@ -158,9 +164,14 @@ pub fn record(output: &str) {
                 guarded(|| kws.kinematics.inverse_continuing(&back.to_na(), &q)).and_then(|a| a.first().copied())
             } else { None };
             let prev: Joints = if let Some(p) = stepped { p } else if rep == 2 { q } else if rep == 3 { rs_opw_kinematics::kinematic_traits::CONSTRAINT_CENTERED } else { std::array::from_fn(|i| q[i] + r.gen_range(-0.1..0.1)) };
-            for entry in ["inverse", "inverse_continuing", "inverse_5dof", "inverse_continuing_5dof"] {
+            // (the continuation entries are asked a second time right away, for the same pose and another previous vector:
+            //  the wrist wound up by a turn, or half a radian away in every joint)
+            let prev2: Joints = if rep % 2 == 0 { let mut p2 = prev; p2[3] += 2.0 * std::f64::consts::PI; p2[5] -= 2.0 * std::f64::consts::PI; p2 } else { std::array::from_fn(|i| q[i] + if i % 2 == 0 { 0.5 } else { -0.5 }) };
+            for (nth, (entry, prev)) in [("inverse", prev), ("inverse_continuing", prev), ("inverse_continuing", prev2), ("inverse_5dof", prev), ("inverse_continuing_5dof", prev), ("inverse_continuing_5dof", prev2)].into_iter().enumerate() {
                 // 5-DOF entries presuppose an axial tool: only for the axial-tool cases
                 if entry.contains("5dof") && k % 2 != 0 { continue; }
+                // (the sentinel has no wound-up variant)
+                if rep == 3 && (nth == 2 || nth == 5) { continue; }
                 let pool = 1 + (k * 5 + rep * 3) % 16;
                 let inner = solver::call(kws.kinematics.as_ref(), entry, &pose, &prev, q[5]);
                 // (odd repetitions on the calling thread itself, the others inside a pool of the given size)
@@ -244,5 +255,16 @@ pub fn kws_from(kinematics: std::sync::Arc<dyn Kinematics>, body: rs_opw_kinemat
         nalgebra::Isometry3::identity(), tiny(), nalgebra::Isometry3::identity(), vec![], safety);
     kws.kinematics = kinematics;
     kws.body = body;
+    kws
+}
+
+/// A robot with shape (tiny placeholder meshes, checking off) whose public kinematics field was replaced by the given
+/// stack after construction.
+pub fn kws_around(kinematics: std::sync::Arc<dyn Kinematics>) -> KinematicsWithShape {
+    let tiny = || { let pose = nalgebra::Isometry3::identity(); scene::local_mesh(&WBox { c: [0.0, 0.0, 0.0], h: [0.001, 0.001, 0.001] }, false, &pose) };
+    let safety = SafetyDistances { to_environment: 0.0, to_robot_default: 0.0, special_distances: HashMap::new(), mode: CheckMode::NoCheck };
+    let mut kws = KinematicsWithShape::with_safety(Parameters::irb2400_10(), Constraints::new([-1.0; 6], [1.0; 6], BY_PREV), std::array::from_fn(|_| tiny()), tiny(),
+        nalgebra::Isometry3::identity(), tiny(), nalgebra::Isometry3::identity(), vec![], safety);
+    kws.kinematics = kinematics;
     kws
 }
